@@ -21,6 +21,10 @@ class Hooks:
         """Abstract values a call may return: list of values, or None for 'opaque'."""
         return None
 
+    def call_effect(self, q, node, state):
+        """Effect of a call evaluated for its side effects: list of successor states, or None (no effect)."""
+        return None
+
     def untracked(self, key):
         return False
 
@@ -66,6 +70,8 @@ def evaluate(t, st, hooks):
         if r is not None:
             return 1 if r else 0
         return ("opaque", AI.tstr(t))
+    if t[0] == "call" and ("ret", t[1]) in st:
+        return st[("ret", t[1])]
     return ("opaque", AI.tstr(t))
 
 
@@ -98,6 +104,10 @@ def exec_events(ev, st, hooks):
     states = [dict(st)]
     for e in ev:
         if e[0] == "cond":
+            pre = []
+            for s in states:
+                pre += _call_effects(e[1], s, hooks)
+            states = pre
             nxt = []
             for s in states:
                 d = decide(e[1], e[2], s, hooks)
@@ -169,8 +179,27 @@ def exec_stmt(stmt, st, hooks):
                 if k is not None and k in s2:
                     s2[k] = ("opaque", "op")
                 nxt.append(s2)
+            elif eff[0] == "call":
+                r = hooks.call_effect(eff[1], eff[2], s)
+                if r is None:
+                    nxt.append(s)
+                else:
+                    nxt += r
             else:
                 nxt.append(s)
+        states = nxt
+    return states
+
+
+def _call_effects(expr, st, hooks):
+    states = [st]
+    for eff in AI.effects(expr):
+        if eff[0] != "call":
+            continue
+        nxt = []
+        for s in states:
+            r = hooks.call_effect(eff[1], eff[2], s)
+            nxt += [s] if r is None else r
         states = nxt
     return states
 
@@ -187,3 +216,57 @@ def _values(expr, st, hooks):
 
 def freeze(st):
     return frozenset((k, v if isinstance(v, int) else str(v)) for k, v in st.items())
+
+
+class Inliner(Hooks):
+    """Hooks that interpret calls of header functions by running their bodies (depth-limited), recording the
+    returned abstract value under ("ret", qname). Subclasses decide which callees are leaves (logged actions)."""
+
+    max_depth = 6
+
+    def __init__(self, facts):
+        self.facts = facts
+        self.depth = 0
+
+    def leaf(self, q, node, st):
+        """Return a list of states if q is modelled as a leaf action, else None to inline it."""
+        return None
+
+    def skip(self, q):
+        return False
+
+    def call_effect(self, q, node, st):
+        from . import flow
+        r = self.leaf(q, node, st)
+        if r is not None:
+            return r
+        c = node.get("callee") or node.get("ctor")
+        if c is None or self.skip(q):
+            return None
+        g = self.facts.by_id.get(c["id"])
+        if g is None or g.body is None or self.depth >= self.max_depth:
+            return None
+        self.depth += 1
+        try:
+            outs = []
+            for ev, term_ in flow.paths(g.body, unroll=1):
+                for o in exec_events(ev, st, self):
+                    if term_ == "return" and ev and ev[-1][0] == "return" and ev[-1][1].get("value") is not None:
+                        o = dict(o)
+                        o[("ret", q)] = evaluate(AI.term(ev[-1][1]["value"]), o, self)
+                    if term_ == "throw":
+                        o = dict(o)
+                        o[("threw",)] = 1
+                    outs.append(o)
+            return outs
+        finally:
+            self.depth -= 1
+
+    def call_value(self, q, node, st):
+        return None
+
+
+def log(st, action):
+    s = dict(st)
+    s[("log",)] = s.get(("log",), ()) + (action,)
+    return s
